@@ -945,6 +945,7 @@ inline void runC19(Ctx &c)
             c.dump = [&]() { return JObj().str("perturbation", pertDesc).raw("case", dumpOptCase(oc, &x)).done(); };
             if (!c.require("C19.reference_state_accepted", initRig(rig, oc), okey(oc, "setup")))
                 continue;
+            c.event(std::string("optimizer_route.") + routeViaCopy(r, rig));
             x = genDecisionVector(r, oc, rig, 0.5);
             const VectorXd x_in = x;
             c.nontrivial(hashOptCase(oc, &x));
